@@ -1261,8 +1261,8 @@ func Run(r *vk.Run) {
 	nEnum := len(cases)
 	cases = append(cases, genSizes(r.Rand("sizes"), defaultLimit, r.Quick())...)
 	nSize := len(cases) - nEnum
-	cases = append(cases, genRandom(r.Rand("random-clean"), r.N(60, 12000), false)...)
-	cases = append(cases, genRandom(r.Rand("random-trigger"), r.N(8, 1000), true)...)
+	cases = append(cases, genRandom(r.Rand("random-clean"), r.N(600, 12000), false)...)
+	cases = append(cases, genRandom(r.Rand("random-trigger"), r.N(80, 1000), true)...)
 	for i := range cases {
 		cases[i].ID = i
 		// safety net for the rule "a blob the client must refuse is never combined with a scripted
